@@ -7,7 +7,10 @@ TARGETS = ['MindsVerif.Props.C11']
 THEOREMS = ['MindsVerif.Props.C11.' + n for n in (
     'C11_main', 'C11_partial_decision', 'C11_witness_2', 'C11_decision_cte', 'C11_decision_before_0e75382',
     'C11_decision_sound', 'C11_names', 'C11_resolution', 'C11_resolution_names', 'C11_resolution_exact',
-    'C11_exactness_needs_hypothesis', 'C11_regression_1', 'C11_regression_2', 'C11_regression_3', 'C11_regression_4')]
+    'C11_exactness_needs_hypothesis', 'C11_regression_1', 'C11_regression_2', 'C11_regression_3', 'C11_regression_4',
+    # round 6: the case-mapping as a parameter of every site; planner-made identifiers keep names exactly
+    'C11_norm_instance', 'C11_norm_consistent', 'C11_norm_consistent_join', 'C11_witness_norm_cut', 'C11_norm_needs_same',
+    'C11_witness_norm_ctor', 'C11_alias_exact', 'C11_path_str_nodot', 'C11_witness_alias_path_str')]
 ASSUME = [
     'get_query_info (bare CTE names skipped), check_single_integration with the CTE-capture guard, prepare_integration_select '
     '(alias-aware cut: aliases, CTE names, own names of unaliased tables are local names) and the walker view are hand-modelled '
@@ -22,27 +25,65 @@ ASSUME = [
     'the Sel abstraction of a query is not computed from the Node abstraction in Lean; both cuts call the same stripPartsN',
     'sqlite3 (ATTACHed database = integration) is the reference engine of the probe; column names of unaliased expression '
     'targets are engine-defined and not compared',
-    'names are ASCII',
+    'names are ASCII in Model/Route.lean; Model/RouteNorm.lean has the case-mapping of every site (constructor, resolver, cut) as '
+    'a parameter; the norm stream instantiates it with Python str.lower (sent per case as a code-point table, character-wise: '
+    'capital sigma is not generated) and compares catalog, get_query_info, both check_single_integration sites and the '
+    'identifiers of the pushed query with the real planner on non-ASCII / case-variant integration and project names',
+    'pathParts models path_str_to_parts on strings without back-quotes (pathstr stream)',
 ]
 DB = 'int1'
 TABLES = dict(R.SCHEMA[DB], int1=['id', 'x', 'y'])      # a table called like the integration (not used by the generator)
 
 
-def make_dbs(rng):
-    """(federated connection: tables live in ATTACHed database int1, local connection: tables in main)"""
-    fed = sqlite3.connect(':memory:')
-    fed.execute("ATTACH ':memory:' AS %s" % DB)
-    loc = sqlite3.connect(':memory:')
-    for t, cols in sorted(TABLES.items()):
-        fed.execute('CREATE TABLE %s.%s (%s)' % (DB, t, ', '.join(cols)))
-        loc.execute('CREATE TABLE %s (%s)' % (t, ', '.join(cols)))
+ALL_TABLES = dict(TABLES, **R.ODD_SCHEMA['int1'])       # + tables / columns with dots, spaces, back-quotes, capitals, reserved words
+
+
+def make_data(rng):
+    data = {}
+    for t, cols in sorted(ALL_TABLES.items()):
+        rows = []
         for _ in range(rng.randint(0, 3)):
             row = [rng.choice([None, 0, 1, 2]) for _ in cols]
             row[0] = rng.choice([0, 1, 2])
-            ph = ', '.join('?' for _ in cols)
-            fed.execute('INSERT INTO %s.%s VALUES (%s)' % (DB, t, ph), row)
-            loc.execute('INSERT INTO %s VALUES (%s)' % (t, ph), row)
-    return fed, loc
+            rows.append(row)
+        data[t] = rows
+    return data
+
+
+def build_db(data, schema=None):
+    """tables of the integration in an ATTACHed database called `schema` (the federated view) or in main (the integration itself)"""
+    conn = sqlite3.connect(':memory:')
+    pre = ''
+    if schema is not None:
+        conn.execute("ATTACH ':memory:' AS %s" % R.qn(schema))
+        pre = R.qn(schema) + '.'
+    for t, cols in sorted(ALL_TABLES.items()):
+        conn.execute('CREATE TABLE %s%s (%s)' % (pre, R.qn(t), ', '.join(R.qn(c) for c in cols)))
+        for row in data[t]:
+            conn.execute('INSERT INTO %s%s VALUES (%s)' % (pre, R.qn(t), ', '.join('?' for _ in cols)), row)
+    return conn
+
+
+class Dbs(list):
+    """[(federated, local)] for the integration called int1, plus federated views under other names on demand"""
+
+    def __init__(self, rng, n):
+        self.data = [make_data(rng) for _ in range(n)]
+        super().__init__((build_db(d, DB), build_db(d)) for d in self.data)
+        self.other = {}
+
+    def named(self, schema):
+        if schema == DB:
+            return list(self)
+        if schema not in self.other:
+            self.other[schema] = [(build_db(d, schema), loc) for d, (_, loc) in zip(self.data, self)]
+        return self.other[schema]
+
+
+def make_dbs(rng):
+    """(federated connection: tables live in ATTACHed database int1, local connection: tables in main)"""
+    d = make_data(rng)
+    return build_db(d, DB), build_db(d)
 
 
 def run_sql(conn, sql):
@@ -62,7 +103,7 @@ def cte_ref_tag(cat, ast):
     return used and (sp['dns'] is None or sp['dns'] not in sp['projects'])
 
 
-def tags_of(ast, pushed):
+def tags_of(ast, pushed, DB=DB):
     tags = []
     if DB in R.all_aliases(ast) or any(str(c).lower() == DB for c in all_cte_names(ast)):
         tags.append('alias=integration')
@@ -96,16 +137,37 @@ def all_cte_names(ast):
     return out
 
 
-def probe_case(cat, sql, dbs):
-    """oracle: exactly one fetch step for int1 whose query, run on int1's own database, returns what the
-    original returns on the federated database"""
+def named_positions(ast):
+    """positions of result columns whose NAME the property fixes (an identifier target keeps its column name, an aliased
+    target its alias); None when a star makes positions unknown"""
+    from mindsdb_sql.parser import ast as A
+    sel = ast
+    while isinstance(sel, (A.Union, A.Intersect, A.Except)):
+        sel = sel.left
+    if not isinstance(sel, A.Select):
+        return None
+    out = []
+    for i, t in enumerate(sel.targets):
+        if isinstance(t, A.Star) or (isinstance(t, A.Identifier) and any(not isinstance(p, str) for p in t.parts)):
+            return None
+        if getattr(t, 'alias', None) is not None or isinstance(t, A.Identifier):
+            out.append(i)
+    return out
+
+
+def probe_case(cat, sql, dbs, db=DB, schema=None):
+    """oracle: exactly one fetch step for the integration `db` whose query, run on the integration's own database, returns what
+    the original returns on the federated database (`schema`: the name under which the original refers to the integration)"""
     from mindsdb_sql import parse_sql
     from mindsdb_sql.planner import plan_query
+    DB = db.lower()
+    if schema is not None:
+        dbs = dbs.named(schema)
     try:
         ast = parse_sql(sql, 'mindsdb')
     except Exception:
         return [], 'unparsed'
-    base = dict(sql=sql, catalog=cat.kwargs())
+    base = dict(sql=sql, catalog=cat.kwargs(), db=db, schema=schema)
     fails = []
 
     def fail(cls, desc, tags, **kw):
@@ -118,17 +180,17 @@ def probe_case(cat, sql, dbs):
     try:
         plan = plan_query(copy.deepcopy(ast), **copy.deepcopy(cat.kwargs()))
     except Exception as e:
-        fail('not-planned', 'single-integration query is not planned: %s: %s' % (type(e).__name__, str(e)[:150]), tags_of(ast, None) + (['cte-ref-default-not-project'] if cte_ref_tag(cat, ast) else []))
+        fail('not-planned', 'single-integration query is not planned: %s: %s' % (type(e).__name__, str(e)[:150]), tags_of(ast, None, DB) + (['cte-ref-default-not-project'] if cte_ref_tag(cat, ast) else []))
         return fails, 'exception'
     steps = plan.steps
     if not (len(steps) == 1 and type(steps[0]).__name__ == 'FetchDataframeStep' and steps[0].integration == DB
             and steps[0].query is not None):
         fail('not-single-fetch', 'expected exactly one fetch step for %r, got %s' % (DB, [str(x) for x in R.plan_summary(plan)][:5]),
-             tags_of(ast, None) + (['cte-ref-default-not-project'] if cte_ref_tag(cat, ast) else []))
+             tags_of(ast, None, DB) + (['cte-ref-default-not-project'] if cte_ref_tag(cat, ast) else []))
         return fails, 'not-single'
     pushed = steps[0].query
     ptext = str(pushed)
-    tags = tags_of(ast, pushed)
+    tags = tags_of(ast, pushed, DB)
     aliases = R.all_aliases(ast) | {str(c).lower() for c in all_cte_names(ast)} \
         | {str(i.parts[-1]).lower() for i, _ in R.table_refs(ast) if i.alias is None}      # names a first part may denote locally
     for i, ipath in R.all_identifiers(pushed):
@@ -151,7 +213,8 @@ def probe_case(cat, sql, dbs):
             fail('rows-differ', 'pushed query %r returns different rows' % ptext, tags, pushed=ptext,
                  expected=rows[:6], got=pr[:6])
             break
-        bad = [(a, b) for a, b in zip(names, pn) if re.fullmatch(r'[A-Za-z_][A-Za-z0-9_]*', a) and a != b]
+        pos = named_positions(ast) or []
+        bad = [(a, b) for i, (a, b) in enumerate(zip(names, pn)) if (i in pos or re.fullmatch(r'[A-Za-z_][A-Za-z0-9_]*', a)) and a != b]
         if len(names) != len(pn) or bad:
             fail('names-differ', 'pushed query %r returns columns %s, the original %s' % (ptext, pn, names), tags,
                  pushed=ptext, expected=names, got=pn)
@@ -372,7 +435,7 @@ def run(chk):
     from mindsdb_sql import parse_sql
     from mindsdb_sql.parser import ast as A
     rng = common.rng_for(chk.seed, 'C11')
-    dbs = [make_dbs(rng) for _ in range(n_db)]
+    dbs = Dbs(rng, n_db)
     for k in chk.kf:
         if k['status'] == 'open':
             w = k['witness']
@@ -412,6 +475,33 @@ def run(chk):
             stmts.append((c, 'SELECT %s.x FROM %s.int1 JOIN %s.s ON %s.id = s.id' % (q, q, q, q), ['table=integration']))
             stmts.append((c, 'SELECT int1.x, a.z FROM %s.int1 JOIN %s.s AS a ON int1.id = a.id WHERE int1.y > 0' % (q, q), ['table=integration']))
             stmts.append((c, 'SELECT x FROM %s.int1 WHERE int1.y > 0' % q, ['table=integration']))
+    # ---- round 6 (b): tables / columns / aliases with dots, spaces, back-quotes, capitals, reserved words: whatever identifier the
+    # planner makes for such a name (the alias that keeps a column name above all) keeps the name as ONE part
+    where = {}
+    for i in range(260 if quick else 3000):
+        c = single_catalog(rng)
+        og = R.OddGen(rng, dbs=('int1',), spell_db=lambda db: R.spell(rng, db))
+        stmts.append((c, og.select(), sorted(og.features) + ['odd-names']))
+    # ---- round 6 (c): the integration has a non-ASCII name (lower() != casefold(), lower() != ASCII lower, lower() changing the
+    # length), registered and written in different case variants; the original runs on a database ATTACHed under the name as written
+    for i in range(200 if quick else 3000):
+        name = rng.choice(R.NONASCII_NAMES)
+        written = R.case_variant(rng, name)
+        base = R.Cat([('n', 'int1'), ('n', 'int2')] if i % 2 else [('d', 'int1', 'data', 'sql'), ('n', 'int2')], None, None,
+                     rng.choice(['mindsdb', 'mindsdb', 'int1', None]))
+        if i % 4 == 0:
+            og = R.OddGen(rng, dbs=('int1',))
+            sql, feats = og.select(), sorted(og.features)
+        else:
+            g = R.QGen(rng, base, single=DB, adversarial=0.04, allow_models=False, spellings=False)
+            sql, kind = g.statement()
+            feats = sorted(g.features)
+            if kind != 'select':
+                continue
+        nc = R.rename_cat(rng, base, {'int1': name})
+        nsql = re.sub(r'`?\bint1\b`?', lambda m: '`%s`' % written, sql)
+        stmts.append((nc, nsql, feats + ['non-ascii-names']))
+        where[(nc.key(), nsql)] = (name, written)
     for c, sql, feats in stmts:
         chk.count((c.key(), sql))
         for f in feats:
@@ -421,10 +511,16 @@ def run(chk):
         except Exception:
             bump('status/unparsed')
             continue
-        lines.append(json.dumps(dict(op='plan', cat=c.model(), ctes=[R.enc(x) for x in R.cte_names(ast)],
-                                     names=[R.enc(x) for x in R.local_names(ast)], node=R.abstract(ast))))
-        metas.append(('plan', c, (sql, ast)))
-        fs, status = probe_case(c, sql, dbs)
+        if (c.key(), sql) in where:
+            name, written = where[(c.key(), sql)]
+            lines.append(R.norm_line(c, ast, sql))
+            metas.append(('norm', c, (sql, ast)))
+            fs, status = probe_case(c, sql, dbs, db=name, schema=written)
+        else:
+            lines.append(json.dumps(dict(op='plan', cat=c.model(), ctes=[R.enc(x) for x in R.cte_names(ast)],
+                                         names=[R.enc(x) for x in R.local_names(ast)], node=R.abstract(ast))))
+            metas.append(('plan', c, (sql, ast)))
+            fs, status = probe_case(c, sql, dbs)
         bump('status/' + status)
         for f in fs:
             chk.classify(f, kf_match)
@@ -450,6 +546,9 @@ def run(chk):
         lines.append(json.dumps(dict(op='plan', cat=c.model(), ctes=[R.enc(x) for x in R.cte_names(ast)],
                                      names=[R.enc(x) for x in R.local_names(ast)], node=R.abstract(ast))))
         metas.append(('plan', c, (sql, ast)))
+    for nm in R.pathstr_cases(rng, 40 if quick else 400):
+        lines.append(json.dumps(dict(op='pathstr', name=R.enc(nm))))
+        metas.append(('pathstr', None, nm))
     sels = [gen_sel(rng) for _ in range(n_sem)]
     for s in sels:
         schema = dict(TABLES)
@@ -469,7 +568,7 @@ def run(chk):
         chk.oblige('corr:route-driver', 'correspondence', False, 'driver failed: %s' % e)
     if outs is not None:
         mfed, mloc = marker_dbs()
-        res = {k: [0, 0, None] for k in ('plan', 'sem')}
+        res = {k: [0, 0, None] for k in ('plan', 'sem', 'norm', 'pathstr')}
         variants = R.Variants()
         for (op, c, arg), o in zip(metas, outs):
             r = res[op]
@@ -483,6 +582,16 @@ def run(chk):
                 msingle = None if o['single'] is None else R.dec(o['single'])
                 variants.plan_case(real, o, dict(sql=sql, catalog=c.kwargs()))
                 bump('plan/%s' % ('pushed' if msingle else 'not-pushed'))
+                why = R.join_site_compare(c, ast, sql, o)
+            elif op == 'norm':
+                sql, ast = arg
+                why = R.norm_compare(c, ast, sql, o)
+                bump('norm/%s' % ('pushed' if o['single'] else 'not-pushed'))
+            elif op == 'pathstr':
+                from mindsdb_sql.parser.ast.select.identifier import path_str_to_parts
+                real, mod = path_str_to_parts(arg), [R.dec(p) for p in o['parts']]
+                if real != mod:
+                    why = dict(name=arg, field='path_str_to_parts', impl=real, model=mod)
             else:
                 sel = arg
                 if ['badTable'] in model_res(o['fed']):
@@ -526,8 +635,11 @@ def run(chk):
         chk.oblige('corr:route-variant', 'correspondence', okv, detail)
         dist['model-variant'] = which
         chk.corr_result('sem-vs-sqlite', res['sem'][0], res['sem'][1], res['sem'][2])
+        chk.corr_result('route-norm', res['norm'][0], res['norm'][1], res['norm'][2])
+        chk.corr_result('pathstr', res['pathstr'][0], res['pathstr'][1], res['pathstr'][2])
     for c, sql, feats in stmts[:3]:
         chk.samples.append(dict(sql=sql, catalog=c.kwargs(), features=feats))
+    chk.samples.append(dict(theorem='C11_norm_consistent : defaultKnown c → planTopG n n names c ctes q = some steps → ∃ i, steps = [fetch i (stripG n i names q)] ∧ ∀ visited table x, isCteRef ∨ ∃ rest, resolveSimpleG n c x = some (i, rest) ∧ cut x = rest   -- every case-mapping n, the SAME at both sites'))
     chk.samples.append(dict(theorem='C11_resolution : ∀ db sch s, keepsAll (resolveAll true db sch [] s) (resolveAll false db sch [] (stripSel db (aliasesOf s) s))   -- keeps a b := a = notFound ∨ b = a'))
     chk.samples.append(dict(theorem='C11_partial_decision : (visit q).any (counted true ctes) → (∀ it ∈ visit q, itemFine true c ctes i it) → i ∉ projects → i ≠ files/views → classType i ≠ api → captures ctes q = false → planTop true names c ctes q = some [fetch i (strip i names q)]'))
     return chk.finish(assumptions=ASSUME)
@@ -541,7 +653,7 @@ def replay(path):
         return 1
     from tools.props.c10 import cat_from_kwargs
     rng = common.rng_for(0, 'C11-replay')
-    dbs = [make_dbs(rng) for _ in range(6)]
-    fs, status = probe_case(cat_from_kwargs(f['catalog']), f['sql'], dbs)
+    dbs = Dbs(rng, 6)
+    fs, status = probe_case(cat_from_kwargs(f['catalog']), f['sql'], dbs, db=f.get('db', DB), schema=f.get('schema'))
     print('REPRODUCED' if fs else 'not reproduced', json.dumps((fs or [f])[0], default=str)[:800])
     return 1 if fs else 0
